@@ -173,14 +173,19 @@ func (pc *PodCache) onEvent(old, pod *v1.Pod, ev model.Event) error {
 			return nil
 		}
 	case model.EventUpdate:
+		labelUpdated := old != nil && pc.labelFilter(old, pod)
 		if !shouldPodBeInEndpoints(pod) || !IsPodReady(pod) {
 			// delete only if this pod was in the cache
-			if !pc.deleteIP(ip, key) {
+			deleted := pc.deleteIP(ip, key)
+			if labelUpdated && pc.c != nil {
+				// Endpoints exist for pods that are not ready as well; keep their labels current.
+				pc.c.recomputeServiceForPod(pod)
+			}
+			if !deleted {
 				return nil
 			}
 			ev = model.EventDelete
 		} else if shouldPodBeInEndpoints(pod) && IsPodReady(pod) {
-			labelUpdated := pc.labelFilter(old, pod)
 			pc.addPod(pod, ip, key, labelUpdated)
 		} else {
 			return nil
@@ -295,7 +300,9 @@ func (pc *PodCache) addPod(pod *v1.Pod, ip string, key types.NamespacedName, lab
 	}
 	pc.Unlock()
 
-	pc.proxyUpdates(pod, false)
+	// A pod that enters the cache may have changed labels while it was not ready (or in this very update);
+	// its endpoints were built from the informer all along.
+	pc.proxyUpdates(pod, labelUpdated)
 }
 
 // queueEndpointEventOnPodArrival registers this endpoint and queues endpoint event
